@@ -125,6 +125,19 @@ type Opts struct {
 	NullPct int
 }
 
+// outValue: the value of one output; a parameter marked NonEmpty (the
+// collection a pipeline is mapped over, while that is excluded for a known
+// finding) is never null and never empty.
+func outValue(r *rng, u *mrogen.Universe, prog *mrogen.Program, p mrogen.Param, o *Opts) any {
+	if p.NonEmpty {
+		o2 := *o
+		o2.NullPct = 0
+		o2.ArrayLens = []int{1, 2, 3, 4}
+		return genValue(r, u, prog, p.T, &o2, true)
+	}
+	return genValue(r, u, prog, p.T, o, true)
+}
+
 // genValue: deterministic conforming value of type ty.
 func genValue(r *rng, u *mrogen.Universe, prog *mrogen.Program, ty mrogen.Ty, o *Opts, top bool) any {
 	if !(top && ty == (mrogen.Ty{Base: "bool"})) && o.NullPct > 0 && r.intn(100) < o.NullPct {
@@ -195,7 +208,7 @@ func Main(prog *mrogen.Program, st *mrogen.Stage, args *jsonx.Obj, o *Opts) *jso
 	h := o.Salt + canonForHash(args, true)
 	out := jsonx.NewObj()
 	for _, p := range st.Outs {
-		out.Set(p.Name, genValue(seed(st.Name, "main", p.Name, h), prog.U, prog, p.T, o, true))
+		out.Set(p.Name, outValue(seed(st.Name, "main", p.Name, h), prog.U, prog, p, o))
 	}
 	return out
 }
@@ -282,7 +295,7 @@ func Join(prog *mrogen.Program, st *mrogen.Stage, args *jsonx.Obj, chunkDefs, ch
 	h := o.Salt + canonForHash(args, true) + "|" + canonForHash(defs, false) + "|" + canonForHash(outs, false)
 	out := jsonx.NewObj()
 	for _, p := range st.Outs {
-		out.Set(p.Name, genValue(seed(st.Name, "join", p.Name, h), prog.U, prog, p.T, o, true))
+		out.Set(p.Name, outValue(seed(st.Name, "join", p.Name, h), prog.U, prog, p, o))
 	}
 	return out
 }
